@@ -3,6 +3,7 @@
    Drift-tagged banks scale the deposit limit to 9 decimals (scale_drift_deposit_limit): the cap
    statements below are for the other tags (the scaled comparison is covered by the correspondence). *)
 Require Import Base Constants Fixed Curve Bank BankOps FixedLemmas BankLemmas ValueLemmas.
+Require Import Risk TransferFee Handlers SolvencyWorld HandlerWorld CapsHandlers.
 Local Open Scope Z_scope.
 
 (* after any successful deposit (or repayment overflow) that mints shares, total deposits are
@@ -51,3 +52,32 @@ Print Assumptions C17_deposit_below_limit.
 Print Assumptions C17_borrow_below_limit_and_utilisation.
 Print Assumptions C17_withdraw_all_utilisation.
 Print Assumptions C17_capacity_is_safe.
+
+(* ---- instruction level (handler model of Handlers.v; HOk2 is the invariant proved preserved in C01) ---- *)
+(* a successful deposit that added deposit shares leaves total deposits strictly below an active deposit limit *)
+Theorem C17_deposit_instruction_respects_limit :
+  forall w a b n up w' hb hb', HOk2 w -> 0 <= n -> h_deposit w a b n up = Ok w' ->
+  nth_bank w b = Ok hb -> nth_bank w' b = Ok hb' -> b_tas (hb_b hb) < b_tas (hb_b hb') ->
+  b_dep_limit (hb_b hb) <> U64_MAX -> b_asset_tag (hb_b hb) <> ASSET_TAG_DRIFT ->
+  deposits_of (hb_b hb') < of_int (b_dep_limit (hb_b hb')).
+Proof. exact h_deposit_respects_limit. Qed.
+
+(* a successful borrow that created debt leaves total debt strictly below an active borrow limit, and
+   total deposits >= total debt in any case (origination fee included) *)
+Theorem C17_borrow_instruction_respects_limit_and_utilisation :
+  forall w a b n w' hb hb', HOk2 w -> 0 <= n -> h_borrow w a b n = Ok w' ->
+  nth_bank w b = Ok hb -> nth_bank w' b = Ok hb' ->
+  (b_tls (hb_b hb) < b_tls (hb_b hb') -> b_bor_limit (hb_b hb) <> U64_MAX ->
+     debt_of (hb_b hb') < of_int (b_bor_limit (hb_b hb'))) /\
+  debt_of (hb_b hb') <= deposits_of (hb_b hb').
+Proof. exact h_borrow_respects_limit_and_utilisation. Qed.
+
+(* a successful withdrawal (partial or all) leaves total deposits >= total debt *)
+Theorem C17_withdraw_instruction_keeps_utilisation :
+  forall w a b n all w' hb', HOk2 w -> 0 <= n -> h_withdraw w a b n all = Ok w' -> nth_bank w' b = Ok hb' ->
+  debt_of (hb_b hb') <= deposits_of (hb_b hb').
+Proof. exact h_withdraw_keeps_utilisation. Qed.
+
+Print Assumptions C17_deposit_instruction_respects_limit.
+Print Assumptions C17_borrow_instruction_respects_limit_and_utilisation.
+Print Assumptions C17_withdraw_instruction_keeps_utilisation.
